@@ -49,6 +49,7 @@ def judge_c16(plan, result):
     vocab = plan.get("vocab", [])
     model = {}  # obj -> model instance; removed once the object left the specified domain
     after_reject = {}
+    tagged = {}  # tag -> (step, outcome) of an evaluation a later twin is compared with (J4)
     passed = {}  # obj -> names of caller-owned lists it was handed (F14)
     mutated = set()  # caller-owned lists changed after they were handed over
     for ev in result["log"]:
@@ -68,6 +69,23 @@ def judge_c16(plan, result):
             continue
         if res["r"] == "skip":
             st["skipped"] += 1
+            continue
+        if op["op"] == "apply":
+            # J4: a LayerRule whose sentence was started over (layers_that() again) has exactly the
+            # subject layer of its new sentence: same outcome as a fresh rule given only that sentence
+            if op.get("tag"):
+                tagged[op["tag"]] = (ev["i"], res)
+            ref = tagged.get(op.get("twin_of"))
+            if ref is not None:
+                st["restart_twins_compared"] = st.get("restart_twins_compared", 0) + 1
+                a, b = ref[1], res
+                same = _cls(a) == _cls(b) and (_cls(a) != "FAIL" or a.get("msg") == b.get("msg"))
+                if _cls(a) in ("PASS", "FAIL") and _cls(b) in ("PASS", "FAIL"):
+                    st["restart_twins_with_verdict"] = st.get("restart_twins_with_verdict", 0) + 1
+                if not same:
+                    viol.append({"inv": "J4", "sig": "C16/J4/sentence-started-over-differs-from-fresh-rule",
+                                 "step": ref[0], "detail": {"restarted": a, "fresh": b, "obj": obj,
+                                                             "twin_of": op.get("twin_of")}})
             continue
         mdl = model.get(obj)
         if mdl is None:
